@@ -13,7 +13,9 @@ for f in glob.glob('/verif/evidence/C*.json'):
     d=json.load(open(f))
     for fn in d['coverage'].get('functions_under_contract',[]):
         src=(fn.get('source') or '').split(':')[0]
-        if src in files: out.add(d['property_id'])
+        # roots only: functions tagged with the property (callees pulled in by the closure are covered through the
+        # checks of the properties they are tagged with)
+        if src in files and not fn.get('included_because'): out.add(d['property_id'])
 print(' '.join(sorted(out)))
 PY
 )
